@@ -1,3 +1,4 @@
+import io
 from contextlib import contextmanager
 from typing import Optional, ContextManager, Iterator, TextIO
 
@@ -27,7 +28,9 @@ class ContentsOfStr(ContentsWithCachedPathFromWriteToBase):
     @property
     @contextmanager
     def as_lines(self) -> ContextManager[Iterator[str]]:
-        yield iter(self._contents.splitlines(keepends=True))
+        # A line ends with new-line, and only with new-line, as when the text is read from a file.
+        # (str.splitlines also splits at form feed, line separator etc.)
+        yield iter(io.StringIO(self._contents))
 
     def write_to(self, output: TextIO):
         output.write(self._contents)
